@@ -152,6 +152,33 @@ Definition from_trafo (S fvn tvn : Q) (zk ym : Q) (r x b g tap shift : Q) (rate 
 Definition sn_of_rate_old (rate : F) : F := fmap (fun ra => if isclose0 ra then MAX_VAL else ra) rate.
 Definition sn_of_rate (rate : F) : F := Some (match rate with Some ra => if isclose0 ra then MAX_VAL else ra | None => MAX_VAL end).
 
+(* ------------------------------------------------------------------ impedance-class branches *)
+(* from_ppc.py:299-325 : a branch between different base voltages with tap 0/1 and no shift becomes a net.impedance with
+   sn_mva = RATE_A (zero or NaN -> MAX_VAL, after the repair "fix: from_ppc treats a NaN rating of an impedance branch like
+   a missing one") ; rft = r/baseMVA*sn, xft = x/baseMVA*sn, bf = b*baseMVA/sn/2, gf = g*baseMVA/sn/2 *)
+Definition imp_sn_of_rate (rate : F) : F := sn_of_rate rate.
+(* the rule before that repair: np.isclose(nan, 0) is False, a NaN rating stayed NaN *)
+Definition imp_sn_of_rate_old (rate : F) : F := fmap (fun ra => if isclose0 ra then MAX_VAL else ra) rate.
+Record imp := { i_sn : F; i_rft : F; i_xft : F; i_bf : F; i_gf : F }.
+Definition from_impedance_with (snf : F -> F) (S r x b g : Q) (rate : F) : imp :=
+  let sn := snf rate in
+  {| i_sn := sn;
+     i_rft := fmap (fun s => qmul (qdiv r S) s) sn;
+     i_xft := fmap (fun s => qmul (qdiv x S) s) sn;
+     i_bf := fmap (fun s => qdiv (qdiv (qmul b S) s) 2) sn;
+     i_gf := fmap (fun s => qdiv (qdiv (qmul g S) s) 2) sn |}.
+Definition from_impedance := from_impedance_with imp_sn_of_rate.
+Definition from_impedance_old := from_impedance_with imp_sn_of_rate_old.
+(* build_branch.py:1022-1031 (mode pf: sn_factor = 1; symmetric impedance: rtf = rft, ...) : r = rft/sn*S, b = 2*bf*sn/S *)
+Record irow := { ir_r : F; ir_x : F; ir_b : F; ir_g : F }.
+Definition to_impedance (S : Q) (i : imp) : irow :=
+  {| ir_r := fmap2 (fun v s => qmul (qdiv v s) S) (i_rft i) (i_sn i);
+     ir_x := fmap2 (fun v s => qmul (qdiv v s) S) (i_xft i) (i_sn i);
+     ir_b := fmap2 (fun v s => qdiv (qmul (qmul 2 v) s) S) (i_bf i) (i_sn i);
+     ir_g := fmap2 (fun v s => qdiv (qmul (qmul 2 v) s) S) (i_gf i) (i_sn i) |}.
+(* guard of the finding C21-impedance-rate-nan: the rating is a number *)
+Definition G21_imp_rate (rate : F) : bool := match rate with Some _ => true | None => false end.
+
 (* ------------------------------------------------------------------ bus rows: loads, sgens, shunts *)
 Inductive pq := Load (p q : Q) | Sgen (p q : Q).
 (* from_ppc.py:85-92 *)
@@ -233,4 +260,6 @@ Definition run_from_bus (vn pd qd gs bs : Q) : out :=
   OL [olist opq (from_bus_pq pd qd);
       olist (fun s => OL [oq (s_p s); oq (s_q s)]) (from_bus_shunt vn gs bs)].
 Definition run_which (fvn tvn tap shift : Q) : out := onat (which fvn tvn tap shift).
+Definition run_from_impedance (S r x b g : Q) (rate : F) : out :=
+  let i := from_impedance S r x b g rate in OL [ooq (i_sn i); ooq (i_rft i); ooq (i_xft i); ooq (i_bf i); ooq (i_gf i)].
 Definition run_gen_which (l : list grow) : out := olist onat (gen_which l).
